@@ -78,9 +78,9 @@ def gen_crossing(rng, tier, widen):
     mid = freqs[len(freqs) // 2] + 1e9
     ml = [rng.choice([0.0, 0.0, 6.0, 16.5, round(rng.uniform(0, 20), 2)]) for _ in range(2)]
     if split:
-        ranges = [[190e12, mid, ml[0]], [mid, 200e12, ml[1]]]
+        ranges = [[190e12, mid, ml[0]], [mid, freqs[-1] + 1e12, ml[1]]]
     else:
-        ranges = [[190e12, 200e12, ml[0]]]
+        ranges = [[190e12, freqs[-1] + 1e12, ml[0]]]
     use_imp = rng.random() < 0.6
     # input powers around the target so that both branches of the min are exercised
     centre = -20.0 if kind != 'pch' else node['pch']
